@@ -38,16 +38,16 @@ macro_rules! bodies {
             cover!(got & 1 == 1 && x & 1 == 1 && got > 4);
             Outcome::eq(got, want as u64)
         }
-        /// slice by the top 3 bits of the input (parallelism)
+        /// slice by the top 4 bits of the input, T in 0..8: the non-negative inputs (parallelism); T = 8: every negative input and NaR
         pub fn sqrt_top<const T: u32, S: Src>(s: &mut S) -> Outcome {
             let x = s.$draw();
-            crate::assume!(s, (x as u32) >> ($n - 3) == T);
+            crate::assume!(s, if T < 8 { (x as u32) >> ($n - 4) == T } else { (x as u32) >> ($n - 1) == 1 });
             let got = <$P>::from_bits(x).sqrt().to_bits() as u64;
             let want = match want_sqrt(s, $n, $es, x as u32) {
                 Some(w) => w,
                 None => return Outcome::skip(),
             };
-            cover!(got & 1 == 1 && x & 1 == 1);
+            cover!(x & 1 == 1 && (T == 8 || got & 1 == 1));
             Outcome::eq(got, want as u64)
         }
     };
